@@ -6,6 +6,11 @@ PROP = {
          "why": "a trace recorded from the real stream.ProcessorNode (Run loop + Reconfigure callers on their own goroutines, "
                 "fake processors stamping their generation) is not accepted by the event system the C13 theorems are proved "
                 "about, or a C13 monitor fails on it, or the implementation hung / panicked"},
+        {"harness": "h_procnode", "comp": "procsvc", "n_quick": 3000, "n_thorough": 40000,
+         "why": "a trace of the real lifecycle.Service.ReconfigureProcessor driving the real node (fresh RunnableProcessor per "
+                "request around a fake plugin; requests cancelled before / after the run loop claimed them) is not accepted by the "
+                "service-level event system (Model/ProcSvc: the wrapper does nothing with the runnable after node.Reconfigure), or the "
+                "processor installed in the node was torn down by the API goroutine / a record was processed by a torn-down plugin"},
     ],
     "rule": "procnode: seeded scripts of harness operations (feed / gated feed / release with a result kind, Reconfigure with "
             "scripted open outcome and optional gated Open, cancel, await, pending probes, stop by ctx / closed input) executed "
